@@ -231,7 +231,7 @@ class C11(Check):
                 out.append(argv_case([["-Wall"], [FLAGS[k], v], ["-DLAST"]], True, True))
                 out.append(argv_case([["-Wall"], [FLAGS[k] + v], ["-DLAST"]], True, True))
         # 4. random vectors: mostly-valid (safe values only), general (all values), long
-        n_rand = 1500 if quick else 60000
+        n_rand = 4000 if quick else 60000
         for i in range(n_rand):
             r = self.rng.random()
             if r < 0.5:
@@ -241,7 +241,7 @@ class C11(Check):
             else:
                 out.append(argv_case(self.random_vector(self.rng.randint(12, 30), safe_only=self.rng.random() < 0.5), True))
         # 5. malformed stream (outside the quantifier: compared with M only)
-        for i in range(700 if quick else 30000):
+        for i in range(2000 if quick else 30000):
             out.append(argv_case(self.malformed_vector(), False))
         # 6. raw command strings for shlex.split
         alpha = "a '\"\\\t-"
@@ -250,7 +250,7 @@ class C11(Check):
             for combo in itertools.product(alpha, repeat=n):
                 out.append({"kind": "split", "s": "".join(combo)})
         alpha2 = "ab -=DI'\"\\\t\n$`;#"
-        for i in range(600 if quick else 30000):
+        for i in range(2000 if quick else 30000):
             out.append({"kind": "split", "s": "".join(self.rng.choice(alpha2) for _ in range(self.rng.randint(0, 14)))})
         return out
 
@@ -446,6 +446,15 @@ class C11(Check):
         argv = self.argv(case)
         inst = class_instances(argv)
         if not inst:
+            return None
+        # the findings describe a normal return (or the caught ArgumentError for dash-value, or SystemExit for the
+        # ambiguous abbreviation -i): any other way of failing is a different defect
+        how = ia[0][0]
+        kinds = {c for c, _ in inst}
+        if how not in ("Ok", "ArgErr", "SystemExit") or (how == "ArgErr" and "dash-value" not in kinds) \
+                or (how == "SystemExit" and "-i" not in argv):
+            return None
+        if ia[1] != shlex.join(argv) or ia[2] != ["Ok", argv]:
             return None
         # narrow: the failure must disappear when only the class spellings are replaced
         rep = neutralise(argv)
